@@ -17,12 +17,17 @@ use pvcore::explore::{Chooser, Violation};
 use pvcore::refcodec::SPacket;
 
 pub fn check(tier: Tier) -> Check {
-    let parts = vec![Part::new(
-        "C16/disciplines",
-        json!({"depth": tier.pick(4, 5), "pairs": tier.pick(false, true)}),
-        0,
-        tier.pick(45, 900),
-    )];
+    let parts = vec![
+        Part::new(
+            "C16/disciplines",
+            json!({"depth": tier.pick(4, 5), "pairs": tier.pick(false, true)}),
+            0,
+            tier.pick(45, 900),
+        ),
+        // scripts that end in a transport fault (end-of-stream, read error - permanent or transient - of
+        // three io::ErrorKinds): run() returns under every discipline alike
+        Part::new("C16/disciplines", json!({"depth": tier.pick(3, 4), "pairs": false, "faults": true}), 0, tier.pick(45, 600)),
+    ];
     Check {
         also_rel: true,
         property: "C16",
@@ -61,6 +66,7 @@ struct Mode {
     bytewise: bool,
     write: WriteMode,
     sweep: bool,
+    kind: std::io::ErrorKind,
 }
 
 fn run_script(
@@ -78,6 +84,7 @@ fn run_script(
     sys.read_chunk = mode.chunk;
     sys.sweep = mode.sweep;
     sys.set_write_mode(mode.write);
+    sys.w.set_err_kinds(mode.kind, mode.kind);
     sys.bring_up(vec![]);
     let mut applicable = spurious.is_none();
     for (i, ev) in script.iter().enumerate() {
@@ -115,6 +122,13 @@ pub fn scenario(name: &str, params: &Value) -> Scenario {
         // ---- baseline: wake-only, whole packets, accept-all; the script is chosen here
         let mut sys = Sys::new("C16", &name, chz);
         sys.params = params.clone();
+        let faults = params["faults"].as_bool().unwrap_or(false);
+        let kind = if faults {
+            [std::io::ErrorKind::WouldBlock, std::io::ErrorKind::Interrupted, std::io::ErrorKind::ConnectionReset][chz.choose(3)]
+        } else {
+            std::io::ErrorKind::ConnectionReset
+        };
+        sys.w.set_err_kinds(kind, kind);
         sys.bring_up(vec![]);
         let mut specs = std_ops();
         specs.push(OpSpec::Publish(PublishSpec::simple(0, "t/z", b"zero")));
@@ -168,6 +182,11 @@ pub fn scenario(name: &str, params: &Value) -> Scenario {
                     e.push(Ev::Hold(Tid::Ctx));
                 }
             }
+            if faults && sys.m.ctx == CtxSt::Running {
+                e.push(Ev::Eof);
+                e.push(Ev::ReadErr);
+                e.push(Ev::ReadErrOnce);
+            }
             if e.is_empty() {
                 break;
             }
@@ -214,6 +233,7 @@ pub fn scenario(name: &str, params: &Value) -> Scenario {
                             continue; // that is the baseline
                         }
                         let mode = Mode {
+                            kind,
                             chunk,
                             bytewise,
                             write,
